@@ -228,3 +228,14 @@ Example C15_example_ntp_kernels :
   k_ntp_dec_secs 15354565283574448128 = 1366024518 /\
   k_ntp_dec_fracin 2147483648 = 500000000 /\ k_ntp_enc_fracin 3575013318500000000 = 2147483648000000000.
 Proof. vm_compute. repeat split. Qed.
+
+(* the RTP -> NTP mapping follows the MOST RECENT sender report, whatever the reports before it and whatever the order of
+   their RTP times (the 32-bit RTP timestamp wraps; a report is never "older" because its number is smaller): for every
+   history of reports and every later report r, every timestamp is mapped exactly as by a receiver that has seen r only *)
+Theorem C15_rtptime_latest_sender_report_wins : forall reports r rate ts,
+  sr_state (reports ++ [r]) = Some r /\
+  (match sr_state (reports ++ [r]) with
+   | Some (rtp, ntp) => packet_ntp ntp rtp rate ts
+   | None => 0 end) = packet_ntp (snd r) (fst r) rate ts.
+Proof. intros reports [rtp ntp] rate ts. rewrite sr_state_last. split; reflexivity. Qed.
+Print Assumptions C15_rtptime_latest_sender_report_wins.
